@@ -163,6 +163,50 @@ theorem omitted_planes_read_empty {g : Geom} (hg : Admissible g) (ks : List Nat)
     have : handInt g * ((k₁ : Int) + handInt g * v - k₁) = (handInt g * handInt g) * v := by ring
     rw [this, h2]; ring
 
+/-- **Clause 1, with the planes chosen by the constructor** (`omit_empty_frames` on or off; `nonempty[k]` = plane `k`
+of the input has a non-zero pixel): the volume read back contains every non-empty input plane at the input's
+position, and a slot without frame corresponds to an input plane that is empty (or lies outside the input) — so
+"even when empty slices were omitted from storage" every voxel value, zero or not, is where the input gave it. -/
+theorem nonzero_planes_survive_omission {g : Geom} (hg : Admissible g) (nonempty : List Bool) (hne : nonempty ≠ [])
+    (omitEmpty : Bool) (rows cols : Int) (hr : 1 ≤ rows) (hc : 1 ≤ cols) :
+    ∃ k₁ < nonempty.length, ∃ out,
+      getVolumeStack .seg (storeStack g (keptPlanes nonempty omitEmpty)) rows cols true ({} : Request) = .ok out ∧
+      (∀ k, nonempty[k]? = some true → ∃ i v, (i, v) ∈ out.frames ∧ (keptPlanes nonempty omitEmpty)[i]? = some k ∧
+          0 ≤ v ∧ v < out.n ∧ ∀ r c : Int, out.aff.apply v r c = g.aff.apply (k : Int) r c) ∧
+      (∀ v : Int, (¬ ∃ i, (i, v) ∈ out.frames) → ∀ k : Nat, (k : Int) = (k₁ : Int) + handInt g * v →
+          nonempty[k]? = some true → False) ∧
+      (∀ v r c : Int, out.aff.apply v r c = g.aff.apply ((k₁ : Int) + handInt g * v) r c) := by
+  have hks := keptPlanes_ne_nil nonempty omitEmpty hne
+  obtain ⟨k₁, hk₁, k₂, _, out, hout, hb, _, _, _, happ, hfr⟩ :=
+    seg_volume_roundtrip hg (keptPlanes nonempty omitEmpty) hks rows cols hr hc
+  refine ⟨k₁, keptPlanes_bound _ _ _ hk₁, out, hout, ?_, ?_, happ⟩
+  · intro k hk
+    have hmem := keptPlanes_contains nonempty omitEmpty k hk
+    obtain ⟨i, hi, hik⟩ := List.getElem_of_mem hmem
+    refine ⟨i, handInt g * ((k : Int) - k₁), ?_, by rw [List.getElem?_eq_getElem hi, hik], (hb k hmem).1, (hb k hmem).2, ?_⟩
+    · rw [hfr, List.mem_map]
+      exact ⟨(k, i), List.mem_zipIdx_iff_getElem?.mpr (by simp [hi, hik]), rfl⟩
+    · intro r c
+      rw [happ]
+      have h2 := handInt_sq g
+      have : (k₁ : Int) + handInt g * (handInt g * ((k : Int) - k₁)) = (k : Int) := by
+        have : (k₁ : Int) + handInt g * (handInt g * ((k : Int) - k₁))
+            = (k₁ : Int) + (handInt g * handInt g) * ((k : Int) - k₁) := by ring
+        rw [this, h2]; ring
+      rw [this]
+  · intro v hno k hkv hk
+    apply hno
+    have hmem := keptPlanes_contains nonempty omitEmpty k hk
+    obtain ⟨i, hi, hik⟩ := List.getElem_of_mem hmem
+    refine ⟨i, ?_⟩
+    rw [hfr, List.mem_map]
+    refine ⟨(k, i), List.mem_zipIdx_iff_getElem?.mpr (by simp [hi, hik]), ?_⟩
+    simp only [Prod.mk.injEq, true_and]
+    rw [hkv]
+    have h2 := handInt_sq g
+    have : handInt g * ((k₁ : Int) + handInt g * v - k₁) = (handInt g * handInt g) * v := by ring
+    rw [this, h2]; ring
+
 /-! ## 2. Arrays aligned to source images given in any order -/
 
 /-- **Clause 1b (aligned to a source stack in any slice order).**  Frames whose recorded positions are
